@@ -1,4 +1,6 @@
 mod schema_file;
+#[cfg(feature = "verif")]
+mod verif;
 
 use hashbrown::HashMap;
 
